@@ -241,12 +241,18 @@ PROPS["C18"] = dict(
                  "what join / last / sort / reverse / slice do to a map is not stated: maps only get keys, default, first, merge"],
 )
 
+def _c16_corrupt(o):
+    """Binding self-test: one byte of the recorded serialisation is changed."""
+    b = o["bytes"]
+    b[len(b) // 2] = (b[len(b) // 2] + 1) % 256
+
+
 PROPS["C16"] = dict(
     level="model_checking",
     stages=[dict(name="fmt", module="MC_CompiledFmt", cfg={"quick": "MC_CompiledFmt.cfg", "thorough": "MC_CompiledFmt.cfg"}, modelonly=True),
             dict(name="enum", module="MC_C16", cmd="compiled", cfg={"quick": "MC_C16_quick.cfg", "thorough": "MC_C16_thorough.cfg"},
                  timeout={"quick": 300, "thorough": 900}, limit="30s",
-                 trace=dict(module="Trace_C16", cfg="Trace_C16.cfg"))],
+                 trace=dict(module="Trace_C16", cfg="Trace_C16.cfg", mutate=_c16_corrupt))],
     nontrivial=lambda r: True,
     rule="sources (10 ASTs incl. macros, include, extends, invalid UTF-8, empty; literal sources of 4097 / 65535 / 65536 bytes / 1 MiB) x "
          "names (ASCII, multi-byte, NUL, 0xFF, path-like, with blank) x timestamps (0, -1, 2^62, now) x 2 contexts; per case: field "
